@@ -28,6 +28,38 @@ Arguments tend {V} t.
 Arguments tstring {V} t.
 Arguments tvalue {V} t.
 
+(* "while w not in state.children: state = state.fail" then "state.children.get(w)":
+   the root has every known word as a child (a real one or a link to itself).
+   [inP] is the node set; [f] the failure function; [k] bounds the number of links followed. *)
+Fixpoint climb (inP : path -> bool) (f : path -> path) (k : nat) (s : path) (w : str) : path :=
+  if inP (s ++ [w]) then s ++ [w] else
+  match s with
+  | [] => []
+  | _ => match k with 0%nat => [] | S k' => climb inP f k' (f s) w end
+  end.
+
+(* node.fail as make_automaton computes it: from the parent's link *)
+Fixpoint failn (inP : path -> bool) (n : nat) (p : path) : path :=
+  match n with
+  | 0%nat => []
+  | S n' =>
+    match rev p with
+    | [] => []
+    | w :: rq =>
+      match rq with
+      | [] => []
+      | _ => climb inP (failn inP n') (length p) (failn inP n' (rev rq)) w
+      end
+    end
+  end.
+
+(* match, match.fail, ... down to the root *)
+Fixpoint chain (f : path -> path) (k : nat) (s : path) : list path :=
+  s :: match s with
+       | [] => []
+       | _ => match k with 0%nat => [] | S k' => chain f k' (f s) end
+       end.
+
 Section Trie.
 Context {V : Type}.
 Variable O : oracle.
@@ -94,37 +126,6 @@ Definition t_make_automaton (t : trie) : trie :=
 
 Definition max_depth (t : trie) : nat := fold_right (fun e m => Nat.max (length (fst e)) m) 0%nat (outs t).
 
-(* "while w not in state.children: state = state.fail" then "state.children.get(w)":
-   the root has every known word as a child (a real one or a link to itself) *)
-Fixpoint climb (t : trie) (f : path -> path) (k : nat) (s : path) (w : str) : path :=
-  if in_nodes t (s ++ [w]) then s ++ [w] else
-  match s with
-  | [] => []
-  | _ => match k with 0%nat => [] | S k' => climb t f k' (f s) w end
-  end.
-
-(* node.fail as make_automaton computes it: from the parent's link *)
-Fixpoint failn (t : trie) (n : nat) (p : path) : path :=
-  match n with
-  | 0%nat => []
-  | S n' =>
-    match rev p with
-    | [] => []
-    | w :: rq =>
-      match rq with
-      | [] => []
-      | _ => climb t (failn t n') (length p) (failn t n' (rev rq)) w
-      end
-    end
-  end.
-
-(* match, match.fail, ... down to the root *)
-Fixpoint chain (f : path -> path) (k : nat) (s : path) : list path :=
-  s :: match s with
-       | [] => []
-       | _ => match k with 0%nat => [] | S k' => chain f k' (f s) end
-       end.
-
 Definition slice (s : str) (a b : Z) : str :=      (* s[a : b+1] for 0 <= a *)
   firstn (Z.to_nat (b + 1 - a)) (skipn (Z.to_nat a) s).
 
@@ -141,7 +142,7 @@ Fixpoint iter_go (t : trie) (text : str) (md : nat) (state : path) (starts : lis
         let w := lower O (ptext p) in
         if negb (existsb (str_eqb w) (known t)) then iter_go t text md [] starts' ps'
         else
-          let state' := climb t (failn t md) md state w in
+          let state' := climb (in_nodes t) (failn (in_nodes t) md) md state w in
           let found :=
             flat_map (fun node =>
                         match get_out node (outs t) with
@@ -150,7 +151,7 @@ Fixpoint iter_go (t : trie) (text : str) (md : nat) (state : path) (starts : lis
                             [ {| tstart := st; tend := pend p; tstring := slice text st (pend p); tvalue := Some v |} ]
                         | None => []
                         end)
-                     (chain (failn t md) md state') in
+                     (chain (failn (in_nodes t) md) md state') in
           found ++ iter_go t text md state' starts' ps'
   end.
 
